@@ -392,8 +392,8 @@ Section AgreeFold.
      do vtx <- vertex_of (c_vertices c) (cf_vid cf);
      Ok (match ov with Some v => g_prop g' (v_type vtx) (cf_name cf) v | None => Null end)).
   Proof.
-    intros H. unfold expect_some at 1 3. destruct (lookup_str name (c_outputs c)) as [cf|] eqn:El; [|reflexivity].
-    cbn [bind]. apply bind_ext. intros ov. unfold vertex_of, expect_some.
+    intros H. destruct (lookup_str name (c_outputs c)) as [cf|] eqn:El; [|reflexivity].
+    cbn [expect_some bind]. apply bind_ext. intros ov. unfold vertex_of, expect_some.
     destruct (find_vertex (c_vertices c) (cf_vid cf)) as [vtx|] eqn:Ev; [|reflexivity]. cbn [bind].
     destruct ov as [v|]; [|reflexivity]. f_equal.
     destruct (lookup_str_in _ _ _ El) as (k' & Hin).
@@ -423,19 +423,20 @@ Section AgreeFold.
   Qed.
 
   Theorem fold_step_agree vs ss h sub sub_calls sc sc' cs :
-    agree_on (fold_calls true vs h sub sub_calls) g g' -> (forall l, sc l = sc' l) ->
+    agree_on (fold_calls true vs h sub sub_calls) g g' -> (agree_on sub_calls g g' -> forall l, sc l = sc' l) ->
     fold_step re_match g args vs ss h sub sc cs = fold_step re_match g' args vs ss h sub sc' cs.
   Proof.
-    intros H Hsc. unfold fold_step, vertex_of. unfold expect_some at 1 3. unfold fold_calls in H.
-    destruct (find_vertex vs (fo_from h)) as [from|]; [|reflexivity]. cbn [bind].
+    intros H Hsc0. unfold fold_step, vertex_of. unfold fold_calls in H.
+    destruct (find_vertex vs (fo_from h)) as [from|]; [|reflexivity]. cbn [expect_some bind].
     apply agree_on_app in H. destruct H as (Hi & H). apply agree_on_cons in H. destruct H as (Hn & H).
-    apply agree_on_app in H. destruct H as (Hp & H). apply agree_on_app in H. destruct H as (_ & Ho).
+    apply agree_on_app in H. destruct H as (Hp & H). apply agree_on_app in H. destruct H as (Hs & Ho).
+    pose proof (Hsc0 Hs) as Hsc.
     apply bind_congr.
     { apply foldM_ext_in. intros t cs0 Ht.
       assert (Hit : agree_on (import_calls vs t) g g').
       { eapply agree_on_incl; [|exact Hi]. intros c Hc. apply in_flat_map. eauto. }
-      destruct t as [cf|ff]; [|reflexivity]. unfold import_calls in Hit. unfold expect_some.
-      destruct (find_vertex vs (cf_vid cf)) as [fvtx|]; [|reflexivity]. cbn [bind].
+      destruct t as [cf|ff]; [|reflexivity]. unfold import_calls in Hit.
+      destruct (find_vertex vs (cf_vid cf)) as [fvtx|]; [|reflexivity]. cbn [expect_some bind].
       apply agree_on_cons in Hit. destruct Hit as (Hit & _).
       apply mapM_ext_in. intros c _. apply bind_ext. intros c1. cbv zeta.
       now rewrite (resolve_prop_agree _ _ _ _ _ Hit). }
@@ -458,12 +459,26 @@ Section AgreeFold.
     destruct s as [e|h sub]; cbn [steps_calls exec_steps] in *; apply agree_on_app in Ha; destruct Ha as (Ha1 & Ha2).
     - apply bind_congr; [now apply expand_edge_agree|]. intros cs'. now apply IH.
     - apply bind_congr; [|intros cs'; now apply IH].
-      eapply fold_step_agree; [exact Ha1|]. intros l. apply Hs.
-      unfold fold_calls in Ha1. destruct (find_vertex vs (fo_from h)).
-      + apply agree_on_app in Ha1. destruct Ha1 as (_ & Ha1). apply agree_on_cons in Ha1. destruct Ha1 as (_ & Ha1).
-        apply agree_on_app in Ha1. destruct Ha1 as (_ & Ha1). apply agree_on_app in Ha1. exact (proj1 Ha1).
-      + (* the fold's origin vertex is missing: fold_step panics before running the sub-component;
-           this branch is never used, but the hypothesis is needed syntactically *)
-        exact (fun c Hc => match Hc with end).
-  Abort.
+      eapply fold_step_agree; [exact Ha1|]. intros Hsub l. now apply Hs.
+  Qed.
+
+  Theorem compute_component_agree : forall c,
+    agree_on (comp_calls true c) g g' ->
+    forall cs, compute_component re_match g args c cs = compute_component re_match g' args c cs.
+  Proof.
+    induction c as [root vs ss outs IH] using comp_ind'. intros Ha cs.
+    rewrite !compute_component_eq. rewrite comp_calls_eq in Ha. apply agree_on_app in Ha. destruct Ha as (He & Hs).
+    unfold vertex_of. destruct (find_vertex vs root) as [rv|]; [|reflexivity]. cbn [expect_some bind].
+    apply bind_congr; [now apply enter_vertex_agree|]. intros cs0. now apply exec_steps_agree.
+  Qed.
+
+  (* the whole interpreter depends on the graph only through calls_of_query *)
+  Theorem interpret_agree q :
+    agree_on (calls_of_query q) g g' -> interpret re_match g args q = interpret re_match g' args q.
+  Proof.
+    intros H. unfold calls_of_query, calls_of_query_at in H. apply agree_on_cons in H. destruct H as (Hst & H).
+    apply agree_on_app in H. destruct H as (Hc & Ho). unfold interpret. cbv zeta.
+    cbn in Hst. rewrite Hst. apply bind_congr; [now apply compute_component_agree|].
+    intros cs. apply mapM_ext_in. intros cx _. now apply construct_output_one_agree.
+  Qed.
 End AgreeFold.
